@@ -119,7 +119,10 @@ def plan(rng, idx, tier):
             graphs.append({'tree': tree, 'meta': meta})
         if r.chance(0.04):
             graphs.append({'tree': r.pick(EXOTIC_TREES), 'meta': []})
-        sources.append({'graphs': graphs})
+        src_ = {'graphs': graphs}
+        if r.sub('trailer').chance(0.06):
+            src_['trailer'] = r.sub('trailer2').pick(['</doc>\n', 'EOF\n', ')\n', 'end of file', '</doc>\n(x / ignored)\n'])
+        sources.append(src_)
     srng = rng.sub('style')
     use_stdin = nsrc == 1 and srng.chance(0.5)
     order = list(range(nsrc))
@@ -165,6 +168,10 @@ def _duplicate_bad_branch(tree, spec):
 def source_text(trace, i):
     src = trace['sources'][i]
     t = gtext.build_text(src['graphs'], trace['style'])
+    if src.get('trailer'):
+        # stray text after the last graph of a file (a closing tag, a surplus parenthesis): the tool stops reading
+        # *that* input there and goes on with the next one
+        t = (t if t.endswith('\n') or not t else t + '\n') + src['trailer']
     nl = trace['newline']
     if trace.get('stdin') and nl not in ('LF', 'CRLF'):
         nl = 'CRLF'     # a POSIX stdin frames lines at LF only; bare CR is not a terminator there
